@@ -2,7 +2,7 @@
 import random, json
 import common
 
-THEOREMS = ['C20_partial', 'C20_integer_structure']
+THEOREMS = ['C20_full', 'C20_partial', 'C20_integer_structure']
 MODULE = 'OpenFecVerif.Props.C20'
 
 def spec(B, L, E):
